@@ -43,6 +43,7 @@ PackClause(r) ==
   ELSE IF r.name # r.packname THEN "pack-name"
   ELSE IF r.simfiles # exp THEN (IF Len(r.simfiles) = Len(exp) /\ \E k \in DOMAIN exp : exp[k].st = "ok" /\ r.simfiles[k].st = "MSDParserError"
                                  THEN "strict-option-not-passed-through" ELSE "pack-simfiles")
+  ELSE IF r.simfiles2 # exp THEN "second-walk-of-the-same-pack-object"
   ELSE IF r.openpack # exp THEN (IF Len(r.openpack) = Len(exp) /\ \E k \in DOMAIN exp : exp[k].st = "ok" /\ r.openpack[k].st = "MSDParserError"
                                  THEN "openpack-option-not-passed-through" ELSE "openpack")
   ELSE IF r.encodings # <<>> /\ \E k \in DOMAIN r.encodings : r.encodings[k] # r.enc THEN "encoding-option-not-passed-through"
